@@ -97,7 +97,14 @@ class ScaledValueExpression(inline.InlineElement):  # type: ignore
     # Matches a curly-bracket enclosed string containing fractions and decimals
     # (which should be scaled) and characters (which should be passed through
     # as-is).
-    pattern = re.compile(r"\{(?P<source>" + any_part_pattern.pattern + r"*)\}")
+    #
+    # NB: The contents are matched here with a simple, unambiguous pattern
+    # (any character except curly brackets, with backslash escaping the next
+    # character) and only later split into parts using any_part_pattern.
+    # Repeating any_part_pattern directly here would be equivalent but, being
+    # ambiguous (e.g. a run of digits may be split into decimals in many
+    # ways), takes exponential time to reject an unclosed bracket.
+    pattern = re.compile(r"\{(?P<source>(?:[^\{\}\\]|\\.|\\(?=\n))*\\?)\}")
 
     priority = 6
 
